@@ -130,6 +130,12 @@ class Oracle(simcheck.BaseOracle):
                 if any(b[1] < Fraction(101, 100) for b in frs):
                     self.add("price-below-1.01", "%s: fragment price below 1.01: %s" % (who, [str(b[1]) for b in frs]))
             self.snap[o._vidx] = (frs, liab, frac(s.size_matched))
+            # a bet on a non-runner does not rest: whatever its order type and whenever it was placed (before the removal: voided;
+            # after it: refused with RUNNER_REMOVED), once the update has been processed it is not live
+            gone = any(r["status"] == "REMOVED" and r["id"] == o.selection_id and r.get("hc", 0) == o.handicap for r in runners)
+            if gone and mb.status != "CLOSED" and o.status is not None and o.status.name in ("EXECUTABLE", "CANCELLING", "UPDATING", "REPLACING"):
+                self.add("live-order-on-a-removed-runner", "%s: %s on a runner that is REMOVED in this update (matched %s, remaining %s)" % (
+                    who, o.status.name, s.size_matched, s.size_remaining))
         # a removal present in the book must have been applied in THIS market (even if the same runner / factor
         # was removed in another market before): covered by the per-order checks above, counted here
         if new and len(self.sc["markets"]) > 1:
